@@ -241,6 +241,8 @@ def seeds_for(tier):
 
 def classify(task, b):
     t = b["text"]
+    if len(task) > 4 and task[4] == LEGACY and t.lower().startswith("merge") and re.search(r"\(\s*/\*", t):
+        return "F-C07-legacy-merge-comment-after-parenthesis"
     if re.search(r"(\s|\*/|\n)\.|\.(\s|/\*|--)", t):
         return "F-C07-layout-inside-dotted-name"
     if re.search(r"\w\s+\(|\w\s*/\*.*?\*/\s*\(|\w\s*--[^\n]*\n\s*\(", t) and re.search(r"\(\s*(--[^\n]*\n\s*)*select", t, re.I):
